@@ -70,7 +70,7 @@ package fastcgi
 //@   ensures [no_invented_bytes] (err == nil && len(old(w.buf)) > 0) ==> (n <= len(old(w.buf)) && len(w.buf) == len(old(w.buf)) - n)
 //@   ensures [error_reads_nothing] err != nil ==> n == 0
 
-//@ unit setup_sweep props=C11 files=setup.go nilchecks=on nonnil_params=on dispenser_variants=on filter=`.`
+//@ unit setup_sweep props=C11 files=setup.go nilchecks=on nonnil_params=on dispenser_variants=on exclude=`fastcgi\.(fastcgiParse|parseSRV)$` filter=`.`
 //@ // Safety sweep of this directive's setup code: index, slice, division, nil-map store, nil dereference, explicit panic,
 //@ // and termination of the loops driven by the token cursor. No functional contract; callees in the dispenser through their contracts.
 //@ use casketfile/contracts_verif.go:dispenser_api
